@@ -252,8 +252,10 @@ OffsetsDense == [][
       /\ Len(win') <= step'.args.size ]_vars
 
 \* history = retained suffix filtered by since / limit / direction
-HistoryIsRetainedSuffix ==
-  step.act = "History" /\ step.refdef => step.res.pubs = step.ref
+\* (an ACTION property: `step` is hidden by the VIEW, a state invariant over it would only be evaluated on
+\*  states whose view is new; action properties are evaluated on every generated transition)
+HistoryIsRetainedSuffix == [][
+  (step'.act = "History" /\ step'.refdef) => step'.res.pubs = step'.ref ]_vars
 
 \* the epoch changes only when the stream's metadata was discarded
 EpochStable == [][ (ex /\ ex') => (ep' = ep /\ top' >= top) ]_vars
